@@ -18,6 +18,10 @@ CHECKS = {
    "stateless deviation-bounded DFS over schedules of writer/reader processes of the real shell on the simulated OS (controlled executor + syscall-tap preemption), byte-exact oracle at the consumer",
    "Payload sizes around every buffer boundary of the simulator (0,1,511..513,1023..1025,1536,2047..2049,4096; PIPE_BUF 512, capacity 1024) x trailing/embedded newline shapes x 2-4 stage pipelines, command substitutions (plain, piped, nested, concatenated) and here-documents x reader buffer sizes; every case runs under all cooperative schedules when the payload is <= 1025 bytes (falling back to a completed deviation bound 2 if the cap is hit, reported) or under deviation bound 2/3 above, plus preemption at syscall taps with deviation bound 1. The consumer's length+hash must equal the payload, $( ) must strip exactly the trailing newlines, the shell must exit 0 with no deadlock, zombie or diagnostic.",
    "Simulator pipe semantics; probe built-ins gen/cat/hsink/chk trusted."),
+ "C16": ("model_checking", "DESIGN.md §3 C16",
+   "explicit-state BFS by history replay over the real VariableSet in lock-step with a stack-of-maps reference model (every return value and read compared after every operation), plus scripts through the whole shell",
+   "Every history up to depth 5 (quick) / 7 (thorough) over {push regular/volatile context, pop, get_or_new in Global/Local/Volatile scope followed by touch/assign/export/make read-only, unset in each scope} on names {x,y} with up to 3 contexts above the base is replayed on a fresh real VariableSet (contexts pushed and popped through the public RAII guards) in lock-step with a naive stack-of-maps model that encodes the documented semantics (volatile-to-regular migration, hiding, read-only); after every operation get, get_scoped x3, iter x3, env_c_strings and positional_params are compared. About 55 scripts run through the whole shell cover prefix assignments to each command kind, locals, read-only and the environment received by executed programs. The property is equivalence with a simple scoping model over all histories, which lock-step exploration decides directly.",
+   "Names {x,y}, <=3 extra contexts, Scope::Volatile only when the topmost context is volatile (documented precondition). States merged on (model state, canonicalised Debug rendering of the implementation)."),
 }
 
 NOT_YET = {
